@@ -1,8 +1,8 @@
-// Command harness drives the real trpc-mcp-go code in-process (built with -tags verif from /repo's
+// Package hk is the shared harness kit: it drives the real trpc-mcp-go code in-process (built with -tags verif from /repo's
 // working tree) and writes, per component, the operation lines for the Lean model (ops.jsonl), the
 // canonicalised observations of the implementation (impl.jsonl) and a report with implementation-level
 // oracle verdicts (report.json).
-package main
+package hk
 
 import (
 	"bufio"
@@ -12,7 +12,6 @@ import (
 	"math/rand"
 	"os"
 	"path/filepath"
-	"sort"
 	"sync"
 	"time"
 )
@@ -142,31 +141,14 @@ type Component struct {
 	Run  func(c *Ctx)
 }
 
-var components = map[string]*Component{}
-
-func register(c *Component) { components[c.Name] = c }
-
-func main() {
+// Main runs one component: `<binary> -tier quick|thorough -seed N -dir <workdir>`.
+func Main(comp *Component) {
 	tier := flag.String("tier", "quick", "quick|thorough")
 	seed := flag.Int64("seed", 1, "PRNG seed")
-	dir := flag.String("dir", "", "work directory for ops.jsonl / impl.jsonl / report.json")
+	dir := flag.String("dir", "", "work directory for <name>.ops.jsonl / <name>.impl.jsonl / <name>.report.json")
 	replay := flag.String("replay", "", "replay file (component specific)")
 	flag.Parse()
-	if flag.NArg() < 1 {
-		var ns []string
-		for n := range components {
-			ns = append(ns, n)
-		}
-		sort.Strings(ns)
-		fmt.Fprintln(os.Stderr, "usage: harness [flags] <component>; components:", ns)
-		os.Exit(2)
-	}
-	name := flag.Arg(0)
-	comp := components[name]
-	if comp == nil {
-		fmt.Fprintln(os.Stderr, "unknown component", name)
-		os.Exit(2)
-	}
+	name := comp.Name
 	if *dir == "" {
 		fmt.Fprintln(os.Stderr, "-dir required")
 		os.Exit(2)
@@ -184,7 +166,7 @@ func main() {
 		ops: bufio.NewWriterSize(of, 1<<20), impl: bufio.NewWriterSize(imf, 1<<20),
 		rep:  &Report{Component: name, Tier: *tier, Seed: *seed, Rule: comp.Rule, Distribution: map[string]int{}, Samples: []any{}, Violations: []Violation{}},
 		seen: map[string]bool{}, maxSamp: 6}
-	replayFile = *replay
+	ReplayFile = *replay
 	start := time.Now()
 	comp.Run(c)
 	c.rep.WallS = time.Since(start).Seconds()
@@ -198,4 +180,5 @@ func main() {
 	}
 }
 
-var replayFile string
+// ReplayFile is the value of -replay (component specific).
+var ReplayFile string
